@@ -7,6 +7,7 @@ import (
 	"go/printer"
 	"go/token"
 	"os"
+	"path/filepath"
 	"regexp"
 
 	"github.com/reedom/convergen/pkg/builder"
@@ -73,6 +74,14 @@ func NewParser(srcPath, dstPath string) (*Parser, error) {
 			fileSrc = file
 			return file, nil
 		},
+	}
+	if dstStat != nil {
+		// Whatever a previous run left at the output path must not take part in
+		// the package: show the loader an empty file of the same package instead.
+		f, err := parser.ParseFile(token.NewFileSet(), srcPath, nil, parser.PackageClauseOnly)
+		if absDst, absErr := filepath.Abs(dstPath); err == nil && absErr == nil {
+			cfg.Overlay = map[string][]byte{absDst: []byte("package " + f.Name.Name + "\n")}
+		}
 	}
 	pkgs, err := packages.Load(cfg, "file="+srcPath)
 	if err != nil {
